@@ -162,13 +162,21 @@ class Brackets(Formatter):
 
 
 VALUES = ("", "a", "{x}", "<b>")     # formatting realises symbolic text, so field values come from a small menu
-TEMPLATES = ["{f}", "{f:name}", "{f:python_expression}", "a{f}b{g:name}c", "{g:python_expression}{f:name}"]
+class Extended(Formatter):
+    """A formatter that ADDS a format name of its own (as pedal's HtmlFormatter-style subclasses do)."""
+    available = Formatter.available + ["shout"]
+
+    def shout(self, text):
+        return str(text).upper() + "!"
+
+
+TEMPLATES = ["{f}", "{f:name}", "{f:python_expression}", "a{f}b{g:name}c", "{g:python_expression}{f:name}", "{f:shout}|{g}"]
 
 
 def _expect(t, f, g, custom):
     nm = (lambda x: "<" + x + ">") if custom else (lambda x: x)
     ex = (lambda x: "`" + x + "`") if custom else (lambda x: x)
-    return [f, nm(f), ex(f), "a" + f + "b" + nm(g) + "c", ex(g) + nm(f)][t]
+    return [f, nm(f), ex(f), "a" + f + "b" + nm(g) + "c", ex(g) + nm(f), f.upper() + "!|" + g][t]
 
 
 def render(f: str, g: str, custom: bool, explicit: bool, msg: str) -> bool:
@@ -183,7 +191,9 @@ def render(f: str, g: str, custom: bool, explicit: bool, msg: str) -> bool:
         return True
     t = int(PART) if PART else 3
     r = Report()
-    if custom:
+    if t == 5:
+        r.set_formatter(Extended())          # the template uses the name this formatter adds
+    elif custom:
         r.set_formatter(Brackets())
     kw = {"message": msg} if explicit else {}
     fb = Feedback(label="x", category="instructor", message_template=TEMPLATES[t], fields={"f": f, "g": g},
@@ -210,7 +220,15 @@ class Other(Feedback):
     message_template = "other-template"
 
 
-CLASSES = [Base, Child, Other]
+class Falsy(Feedback):
+    """Class attributes whose ORIGINAL values are falsy."""
+    category = "instructor"
+    title = ""
+    message_template = "falsy-template"
+    muted = False
+
+
+CLASSES = [Base, Child, Other, Falsy]
 ORIG = {(c, f): getattr(c, f) for c in CLASSES for f in ("title", "message_template")}
 
 
@@ -237,7 +255,7 @@ def overrides(a0: bool, a1: bool, a2: bool, b0: bool, b1: bool, b2: bool, c0: bo
               v1: str, v2: str, v3: str, use_ctx: bool) -> bool:
     """
     Three operations from {Cls.override(title=v) / Cls.override(message_template=v) for Cls in Base, Child (inherits
-    its template), Other; no-op}, then clear_report() or contextualize_report(): every class attribute (also inherited
+    its template), Other, Falsy (original title is the empty string)}, then clear_report() or contextualize_report(): every class attribute (also inherited
     ones) is back to its original value, backups are empty; before the clear the latest override is visible and a new
     instance renders from it.
 
@@ -254,12 +272,12 @@ def overrides(a0: bool, a1: bool, a2: bool, b0: bool, b1: bool, b2: bool, c0: bo
     current = dict(ORIG)
     try:
         for op, v in zip(ops, vals):
-            if op >= 6:
+            if op >= 8:
                 continue
             cls, field = CLASSES[op // 2], ("title", "message_template")[op % 2]
             cls.override(report=r, **{field: v})
             current[(cls, field)] = v
-            if cls is Base and field == "message_template" and (Child, field) not in [(CLASSES[o // 2], ("title", "message_template")[o % 2]) for o in ops[:ops.index(op)] if o < 6]:
+            if cls is Base and field == "message_template" and (Child, field) not in [(CLASSES[o // 2], ("title", "message_template")[o % 2]) for o in ops[:ops.index(op)] if o < 8]:
                 current[(Child, field)] = v      # Child inherits Base's template unless overridden itself earlier
             if getattr(cls, field) != v:
                 ok = False
@@ -267,7 +285,7 @@ def overrides(a0: bool, a1: bool, a2: bool, b0: bool, b1: bool, b2: bool, c0: bo
             contextualize_report("x = 1", report=r)
         else:
             clear_report(report=r)
-        ok = ok and _restored()
+        ok = ok and _restored() and Falsy.title == "" and Falsy.muted is False
         # a fresh instance renders from the restored class attributes
         fb = Child(report=r)
         ok = ok and fb.message == "base-template" and fb.title == "child-title"
